@@ -13,7 +13,7 @@ LEVEL = 'exploration'
 RULE = ('every sequence (order matters) of n <= N entries drawn with repetition from a menu of \\index entry ASTs '
         '(1-3 levels, sort@display, |see |seealso |textbf, quoted ! @ | ", mixed case, accent, digit, underscore, '
         'ligature initial), printed into an article with two sections (the first k entries in section One, the rest '
-        'in section Two; every k in 0..n for n <= 3, k in {0, n//2, n} for n = 4, k = n//2 for n = 5) followed by '
+        'in section Two; every k in 0..n for n <= 3 (quick, n = 3: k in {0, 1, 3}), k = n//2 for n >= 4) followed by '
         '\\printindex (and by a theindex environment for short sequences); for each parsed document the tree under '
         'the index node is compared with the reference builder and `groups` is evaluated for index-columns 1..4; '
         'blocks = (form, n, first two entries) (disjoint); non-trivial = at least one entry; distinct = distinct '
@@ -64,6 +64,7 @@ MENU = [
     E(P('\u00c6sir', src='\\AE sir')),                                    # 16 initial transliterates to two letters
     E(P('echo')),                                                         # 17
     E(P('beta'), fmt=['seealso', 'alpha']),                               # 18
+    E(P('Gamma', sort='gamma', src='\\emph{Gamma}', mark='emph')),           # 19 same sort key and text as 5, other markup
 ]
 DESIGN_MENU = tuple(range(14))
 FULL_MENU = tuple(range(len(MENU)))
@@ -88,11 +89,16 @@ def source(specs, split, form, marker='wq'):
 
 
 # ---------------------------------------------------------------------------------------- observation
+def _plain(x):
+    """plasTeX text values are DOM nodes derived from str; keep only the characters."""
+    return None if x is None else ''.join(x)
+
+
 def _sub(node, rank):
     out = []
     for c in node:
         key = c.key
-        marks = [n.nodeName for n in key.childNodes if n.nodeName in MARKS]
+        marks = [_plain(n.nodeName) for n in key.childNodes if n.nodeName in MARKS]
         pages = []
         for p in c.pages:
             n = p._cr_node
@@ -104,13 +110,13 @@ def _sub(node, rank):
             if len(kids) == 1:
                 k = kids[0]
                 if k.nodeType == k.TEXT_NODE:
-                    shown = str(k)
+                    shown = _plain(k)
                 else:
-                    fmt, shown = k.nodeName, k.textContent
+                    fmt, shown = _plain(k.nodeName), _plain(k.textContent)
             else:
                 shown = 'children:%d' % len(kids)
             pages.append([rank.get(id(n), -1), kind, fmt, shown])
-        ident = (c.sortkey if isinstance(c.sortkey, str) else repr(c.sortkey), key.textContent,
+        ident = (_plain(c.sortkey) if isinstance(c.sortkey, str) else repr(c.sortkey), _plain(key.textContent),
                  marks[0] if len(marks) == 1 else (None if not marks else '+'.join(marks)))
         if c.parentNode is not node:
             ident = ident + ('parentNode mismatch',)
@@ -138,7 +144,7 @@ def observe(specs, split, form, marker='wq'):
             for n in inodes:
                 sec = n.currentSection
                 t = sec.attributes.get('title') if sec is not None and sec.attributes else None
-                sections.append(t.textContent if t is not None else None)
+                sections.append(_plain(t.textContent) if t is not None else None)
             tree = _sub(idx, rank)
             top = list(idx)
             pos = {id(n): i for i, n in enumerate(top)}
@@ -147,7 +153,7 @@ def observe(specs, split, form, marker='wq'):
                 doc.config['document']['index-columns'] = cols
                 gs = []
                 for g in idx.groups:
-                    gs.append((g.title, getattr(g, 'id', None), [[pos.get(id(x), -1) for x in col] for col in g]))
+                    gs.append((_plain(g.title), _plain(getattr(g, 'id', None)), [[pos.get(id(x), -1) for x in col] for col in g]))
                 groups[cols] = gs
             return {'tree': tree, 'sections': sections, 'nentries': len(doc.userdata.get('index', [])),
                     'groups': groups}
@@ -321,11 +327,11 @@ def run(tier, seed, rep):
     quick = tier == 'quick'
     plan = []                      # (form, n, menu, split mode)
     for n in range(0, 4):
-        plan.append(('printindex', n, FULL_MENU, 'all'))
+        plan.append(('printindex', n, FULL_MENU, 'ends' if quick and n == 3 else 'all'))
     for n in range(0, 3 if quick else 4):
         plan.append(('theindex', n, FULL_MENU, 'all' if n <= 2 else 'mid'))
     if not quick:
-        plan.append(('printindex', 4, FULL_MENU, 'ends'))
+        plan.append(('printindex', 4, FULL_MENU, 'mid'))
         plan.append(('printindex', 5, DESIGN_MENU, 'mid'))
     blocks = []
     bounds = {'menu': [M.spell(s) for s in MENU], 'index_columns': [1, 2, 3, 4], 'plan': []}
